@@ -110,6 +110,8 @@ class Ref:
             return 'OK', None
         if k == 'copy':
             _, i, move, byuid, sset, dest, _ = op
+            if move and ro:
+                return 'NO', None           # MOVE would remove messages from a read-only selection
             if dest > 2:
                 return 'NO', None
             tg = self.targets(byuid, sset)
